@@ -301,6 +301,11 @@ def make_scenario(spec, cls, verif_seed, index, depth=1):
         sc = spec.generate(cls, rng)
     finally:
         _depth.D = 1
+    st = (sc.get("sched") or {}).get("strategy")
+    if isinstance(st, dict) and rng.random() < 0.2:
+        # client threads started with _thread.start_new_thread: unknown to
+        # the threading module (threading.active_count() == 1 throughout)
+        st["raw"] = True
     sc["_seed"] = seed
     sc["_index"] = index
     sc["_cls"] = cls
@@ -324,7 +329,7 @@ def calibrate(spec, cls, sc, known, timeout):
         return sc
     import copy
     dry = copy.deepcopy(sc)
-    dry["sched"]["strategy"] = dict(kind="pb", at=[])
+    dry["sched"]["strategy"] = dict(kind="pb", at=[], raw=st.get("raw"))
     res = fork_eval(spec, cls, dry, known, timeout)
     s = res.get("sched") or {}
     m = int(s.get("decisions") or 0)
@@ -333,7 +338,8 @@ def calibrate(spec, cls, sc, known, timeout):
     rng = random.Random(sched.get("seed", 0))
     pts = sorted(set(rng.randrange(1, hi + 1)
                      for _ in range(int(st.get("k", 1)))))
-    sc["sched"]["strategy"] = dict(kind="pb", at=pts, calibrated=m)
+    sc["sched"]["strategy"] = dict(kind="pb", at=pts, calibrated=m,
+                                   raw=st.get("raw"))
     return sc
 
 
